@@ -204,7 +204,14 @@ impl Recorder {
                 }
                 if let Some(p) = t.predicted.last() {
                     let gap = (e as i64 - t.last as i64).abs();
-                    let dist = Universal2DBox::dist_in_2r(&cand, p);
+                    // centre distance in units of the sum of the two bounding radii, computed from the box
+                    // fields (the definition in C20), not with the library's own helper
+                    let rad = |b: &Universal2DBox| {
+                        let (hw, hh) = (b.aspect as f64 * b.height as f64 / 2.0, b.height as f64 / 2.0);
+                        (hw * hw + hh * hh).sqrt()
+                    };
+                    let (dx, dy) = (cand.xc as f64 - p.xc as f64, cand.yc as f64 - p.yc as f64);
+                    let dist = (dx * dx + dy * dy).sqrt() / (rad(&cand) + rad(p));
                     crow.push(json!([t.id, gap, (dist * 10_000.0) as i64]));
                 }
             }
